@@ -954,7 +954,7 @@ class GameCoordinator:
             agent_name, agent_role = self.agents[agent_addr] 
             os.makedirs(location, exist_ok=True)
             # the name is chosen by the agent (any text): keep it usable as ONE component of a file name
-            safe_name = re.sub(r"[/\\\x00]", "_", str(agent_name)).encode()[:150].decode(errors="ignore")
+            safe_name = re.sub(r"[/\\\x00]", "_", str(agent_name)).encode("utf-8", errors="replace")[:150].decode("utf-8", errors="ignore")
             filename = os.path.join(location, f"{datetime.now():%Y-%m-%d}_{safe_name}_{agent_role}.jsonl")
             with jsonlines.open(filename, "a") as writer:
                 writer.write(self._agent_trajectories[agent_addr])
